@@ -414,8 +414,7 @@ def _final():
 def impl_history(arg):
     ctxs = []
     try:
-        with _Watchdog(20):
-            return _impl_history(arg, ctxs)
+        return _impl_history(arg, ctxs)          # (non-termination is core.hang_guard's business)
     finally:
         for c in ctxs:
             c.close()
@@ -1306,28 +1305,35 @@ def _run_real(history, probe):
         env.close()
         _reset(None)
 
+class _Timeout(BaseException):
+    """not an Exception: nothing between the guard and the guarded code may swallow it (core.call_impl
+    catches Exception and would turn it into an ordinary 'crash' outcome of the call it interrupted)"""
+
 class _Watchdog(object):
-    """raise TimeoutError in this process after `seconds` (a defect that makes shared state grow without
-    bound must end in a report, not in a check that never returns)"""
+    """raise _Timeout in this process after `seconds` of its own CPU time (ITIMER_VIRTUAL / SIGVTALRM -- never wall
+    clock: on a busy machine wall-clock limits fire on healthy code; SIGPROF is core.hang_guard's).  Only used
+    around the end-to-end histories of extra_checks, which core's guard does not cover; the fn/arg wrappers rely on
+    core.hang_guard.  A defect that makes shared state grow without bound must end in a report, not in a check
+    that never returns."""
     def __init__(self, seconds):
         self.seconds = seconds
     def __enter__(self):
         import signal
         def handler(signum, frame):
-            raise TimeoutError('no result within %d s' % self.seconds)
-        self.old = signal.signal(signal.SIGALRM, handler)
-        signal.setitimer(signal.ITIMER_REAL, self.seconds)
+            raise _Timeout('no result within %d s of CPU time' % self.seconds)
+        self.old = signal.signal(signal.SIGVTALRM, handler)
+        signal.setitimer(signal.ITIMER_VIRTUAL, self.seconds)
     def __exit__(self, *a):
         import signal
-        signal.setitimer(signal.ITIMER_REAL, 0)
-        signal.signal(signal.SIGALRM, self.old)
+        signal.setitimer(signal.ITIMER_VIRTUAL, 0)
+        signal.signal(signal.SIGVTALRM, self.old)
         return False
 
 def _real_worker(job):
     try:
-        with _Watchdog(12):
+        with _Watchdog(90):
             return _real_worker_(job)
-    except TimeoutError as e:
+    except _Timeout as e:
         return (job[0], job[1], ['history followed by probe %s: %s (state growing without bound?)' % (job[1], e)], None)
     except BaseException as e:
         return (job[0], job[1], ['harness error %r %s' % (e, traceback.format_exc()[-600:])], None)
@@ -1347,6 +1353,8 @@ def _real_worker_(job):
                     i += 1
             return (h, job[1], fails, v0)
         return (job[0], job[1], [], v0)
+    except _Timeout:
+        raise
     except BaseException as e:
         return (job[0], job[1], ['harness error %r %s' % (e, traceback.format_exc()[-600:])], None)
 
@@ -1387,7 +1395,7 @@ def extra_checks(ck, tier, rng):
     ctx = mp.get_context('fork')
     res = []
     pool = ctx.Pool(min(NPROC, 16))
-    deadline = time.time() + (150 if tier == 'quick' else 900)
+    deadline = time.time() + (1800 if tier == 'quick' else 7200)     # wall clock: only against a real hang
     try:
         it = pool.imap_unordered(_real_worker, jobs)
         for _ in range(len(jobs)):
@@ -1407,7 +1415,7 @@ def extra_checks(ck, tier, rng):
             fails.append(('history %r then probe %s' % (h, p), f, True))
     # 3. the same probes in a fresh interpreter under another hash seed
     env = dict(os.environ); env['PYTHONHASHSEED'] = '4242'
-    pr = subprocess.run([sys.executable, '-B', '-c', 'import props.c18 as m; m._fresh_main()'], capture_output=True, text=True, env=env, timeout=600)
+    pr = subprocess.run([sys.executable, '-B', '-c', 'import props.c18 as m; m._fresh_main()'], capture_output=True, text=True, env=env, timeout=1800)
     nfresh = 0
     try:
         fresh = json.loads(pr.stdout.strip().splitlines()[-1])
@@ -1778,7 +1786,7 @@ def _engine_run(cid):
 _ENGINE_LOG = []
 _HIST_CACHE = {}
 def impl_engines(arg):
-    with _Watchdog(60):
+    if True:
         _reset(None)
         out = []
         _CASE_TMP[0] = tempfile.mkdtemp(prefix='c18_case_') if any(ENGINE_CALLS[c % len(ENGINE_CALLS)][0] in ('file', 'aux', 'genbst') for c in arg) else None
@@ -1810,13 +1818,13 @@ def _fresh_engine_main():
 def _hermetic(histories):
     """each history (list of call ids) in its own forked child of a pristine interpreter -> list of digest lists"""
     env = dict(os.environ); env['PYTHONHASHSEED'] = '4242'; env['C18_FRESH_IDS'] = json.dumps(histories)
-    pr = subprocess.run([sys.executable, '-B', '-c', 'import props.c18 as m; m._fresh_engine_main()'], capture_output=True, text=True, env=env, timeout=600)
+    pr = subprocess.run([sys.executable, '-B', '-c', 'import props.c18 as m; m._fresh_engine_main()'], capture_output=True, text=True, env=env, timeout=1800)
     return [v for k, v in json.loads(pr.stdout.strip().splitlines()[-1])]
 def _fresh_table(ids=None):
     want = [i for i in (ids if ids is not None else range(len(ENGINE_CALLS))) if i not in _FRESH]
     if want and -1 not in _FRESH:
         env = dict(os.environ); env['PYTHONHASHSEED'] = '4242'; env['C18_FRESH_IDS'] = json.dumps(want)
-        pr = subprocess.run([sys.executable, '-B', '-c', 'import props.c18 as m; m._fresh_engine_main()'], capture_output=True, text=True, env=env, timeout=900)
+        pr = subprocess.run([sys.executable, '-B', '-c', 'import props.c18 as m; m._fresh_engine_main()'], capture_output=True, text=True, env=env, timeout=1800)
         try:
             _FRESH.update((int(k), v) for k, v in json.loads(pr.stdout.strip().splitlines()[-1]))
         except Exception as e:
